@@ -22,6 +22,7 @@ cls(
         "g_n_end": "nat",  # EndBody events sent
         "g_n_final": "nat",  # final (>= 200) Response events sent
         "g_n_closed": "nat",  # StreamClosed events sent
+        "g_spawned": "nat",  # application instances started
     },
     callbacks={
         # events handed to the protocol; the requires are the response automaton of C02/C12
@@ -49,17 +50,27 @@ cls(
     inv=[
         ("HTTPStream.inv.disc", "self.g_disc == (1 if (self.closed and self.g_app_started) else 0)", "C03"),
         ("HTTPStream.inv.started", "implies(self.g_app_started, has(self, 'scope') and has(self, 'start_time'))", "C04"),
+        # exactly one access record, written when the response completes or the stream closes
+        ("HTTPStream.inv.access", "self.g_access == (1 if (self.state == ASGIHTTPState.CLOSED or self.closed) else 0)", "C03"),
+        ("HTTPStream.inv.spawn-once", "self.g_spawned == (1 if self.g_app_started else 0)", "C01"),
         ("HTTPStream.inv.response", "implies(self.state in (ASGIHTTPState.RESPONSE, ASGIHTTPState.TRAILERS), has(self, 'response') and self.g_app_started)", "C12"),
     ],
     rely=[
         ("HTTPStream.rely.closed-monotone", "implies(old(self.closed), self.closed)", "C03"),
         ("HTTPStream.rely.started-monotone", "implies(old(self.g_app_started), self.g_app_started)", "C03"),
+        ("HTTPStream.rely.scope-stays", "implies(has(old(self), 'scope'), has(self, 'scope')) and implies(has(old(self), 'start_time'), has(self, 'start_time'))", "C04"),
         ("HTTPStream.rely.counters-grow", "self.g_disc >= old(self.g_disc) and self.g_access >= old(self.g_access) and self.g_n_end >= old(self.g_n_end) and self.g_n_final >= old(self.g_n_final)", "C03"),
     ],
     task_rely={
+        # until the application has been started only the reader touches the stream (handle is
+        # assumed not to be re-entered; the re-entrant close during the 404 path is finding F4i)
+        "reader": [("HTTPStream.rely[reader].not-started", "implies(not old(self.g_app_started), not self.g_app_started and self.state == old(self.state) and self.closed == old(self.closed) "
+                    "and self.g_n_end == old(self.g_n_end) and self.g_n_final == old(self.g_n_final) and self.g_access == old(self.g_access) and self.g_disc == old(self.g_disc) and self.g_spawned == old(self.g_spawned))", "C03")],
         # while the application task is suspended nobody else advances the response automaton
         "app": [("HTTPStream.rely[app].automaton", "implies(old(self.g_app_started), self.state == old(self.state) and self.g_n_end == old(self.g_n_end) and self.g_n_final == old(self.g_n_final) and iff(has(self, 'response'), has(old(self), 'response')))", "C02")],
     },
+    # a stream that a protocol holds has been given its Request
+    published_inv=[("HTTPStream.published.requested", "has(self, 'scope') and has(self, 'start_time')", "C04")],
     task_inv={
         # quiescent (no app_send in flight; app_send is assumed not to be re-entered): state
         # determines what has been emitted
@@ -71,10 +82,81 @@ cls(
     },
 )
 
-# used by the protocols (callers see only this)
-fn(HS + ".handle", params={"event": "opaque"}, effect="yields", task="reader",
-   modifies=["self.closed", "self.state", "self.scope", "self.start_time", "self.g_app_started", "self.g_access", "self.g_disc", "self.g_n_end", "self.g_n_final", "self.g_n_closed"],
-   ensures=[("handle.closed-monotone", "implies(old(self.closed), self.closed)", "C03"),
-            ("handle.closes", "implies(isinstance(event, StreamClosed), self.closed)", "C03,C07")],
-   props=("C03",))
+# used by the protocols (callers see only this) and verified against the body
+fn(HS + ".handle", params={"event": "obj hypercorn.protocol.events:Request | obj hypercorn.protocol.events:Body | obj hypercorn.protocol.events:EndBody | obj hypercorn.protocol.events:StreamClosed | obj hypercorn.protocol.events:Data"},
+   effect="yields", task="reader",
+   modifies=["self.closed", "self.state", "self.scope", "self.start_time", "self.app_put", "self.g_app_started", "self.g_spawned", "self.g_access", "self.g_disc", "self.g_n_end", "self.g_n_final", "self.g_n_closed"],
+   requires=[
+       # the protocols hand a stream its Request first, and exactly once, right after creating it
+       ("handle.pre.request-first", "iff(isinstance(event, Request), not has(self, 'scope')) and implies(not isinstance(event, Request), has(self, 'start_time'))"),
+       ("handle.pre.fresh", "implies(isinstance(event, Request), not self.closed and not self.g_app_started and self.state == ASGIHTTPState.REQUEST "
+        "and self.g_n_final == 0 and self.g_n_end == 0 and self.g_disc == 0 and self.g_access == 0 and self.g_spawned == 0)"),
+   ],
+   ensures=[
+       ("handle.closed-monotone", "implies(old(self.closed), self.closed)", "C03"),
+       ("handle.closes", "implies(isinstance(event, StreamClosed), self.closed)", "C03,C07"),
+       ("handle.scope-set", "implies(isinstance(event, Request), has(self, 'scope') and has(self, 'start_time'))", "C04"),
+       ("handle.scope-stays", "implies(has(old(self), 'scope'), has(self, 'scope')) and implies(has(old(self), 'start_time'), has(self, 'start_time'))", "C04"),
+       # C01: the scope reports the request exactly (field by field)
+       ("C01.scope.fields", "implies(isinstance(event, Request) and self.g_app_started and not old(self.g_app_started), "
+        "value_of(self, 'scope')['type'] == 'http' and value_of(self, 'scope')['method'] == event.method "
+        "and value_of(self, 'scope')['http_version'] == event.http_version and value_of(self, 'scope')['scheme'] == self.scheme "
+        "and value_of(self, 'scope')['raw_path'] == event.raw_path.partition(b'?')[0] "
+        "and value_of(self, 'scope')['query_string'] == event.raw_path.partition(b'?')[2] "
+        "and value_of(self, 'scope')['path'] == unquote(event.raw_path.partition(b'?')[0].decode('ascii')) "
+        "and value_of(self, 'scope')['headers'] == event.headers and value_of(self, 'scope')['root_path'] == self.config.root_path "
+        "and same(value_of(self, 'scope')['client'], self.client) and same(value_of(self, 'scope')['server'], self.server) "
+        "and same(value_of(self, 'scope')['state'], event.state))", "C01"),
+       ("C01.one-app", "implies(isinstance(event, Request), self.g_spawned - old(self.g_spawned) == (1 if self.g_app_started else 0)) and implies(not isinstance(event, Request), self.g_spawned == old(self.g_spawned))", "C01"),
+       # C01: body chunks are forwarded one to one, byte for byte
+       ("C01.body", "implies(isinstance(event, Body) and not old(self.closed), nogap('puts') and n_emitted('puts') == 1 and emitted('puts')[0]['type'] == 'http.request' "
+        "and emitted('puts')[0]['body'] == event.data and emitted('puts')[0]['more_body'] == True)", "C01"),
+       ("C01.end-body", "implies(isinstance(event, EndBody) and not old(self.closed), n_emitted('puts') == 1 and emitted('puts')[0]['type'] == 'http.request' "
+        "and emitted('puts')[0]['body'] == b'' and emitted('puts')[0]['more_body'] == False)", "C01"),
+       ("C03.closed-delivers-nothing", "implies(old(self.closed), n_emitted('puts') == 0 and n_emitted('sent') == 0)", "C03"),
+       ("C03.access.logged-at-close", "implies(isinstance(event, StreamClosed), self.g_access >= 1)", "C03"),
+   ],
+   props=("C04", "C03", "C01"))
 fn(HS + ".idle", params={}, returns="bool", modifies=[], effect="atomic", ensures=[("HTTPStream.idle.false", "result == False", "C07")], props=("C07",))
+
+import importlib.util as _u, os as _o
+_s = _u.spec_from_file_location("a_events", _o.path.join(_o.path.dirname(__file__), "a_events.py"))
+_ev = _u.module_from_spec(_s); _s.loader.exec_module(_ev)
+PE = "hypercorn.protocol.events:"
+
+REQ_FIRST = [("handle.pre.request-first", "iff(isinstance(event, Request), not has(self, 'scope')) and implies(not isinstance(event, Request), has(self, 'start_time'))")]
+
+R, P_, T_, C_ = ("ASGIHTTPState.REQUEST", "ASGIHTTPState.RESPONSE", "ASGIHTTPState.TRAILERS", "ASGIHTTPState.CLOSED")
+
+fn(HS + ".app_send", params={"message": "none | msg(headers:short;links:short)"}, task="app", exceptional="app",
+   requires=[("app_send.pre.started", "self.g_app_started")],
+   ensures=[
+       # ---- C05 / C03: the application has finished (message is None)
+       ("C05.http.none.500", "implies(message is None and not old(self.closed) and old(self.state) == ASGIHTTPState.REQUEST, "
+        "n_emitted('sent') == 3 and isinstance(emitted('sent')[0], Response) and emitted('sent')[0].status_code == 500 "
+        "and isinstance(emitted('sent')[1], EndBody) and isinstance(emitted('sent')[2], StreamClosed))", "C05"),
+       ("C05.http.none.incomplete", "implies(message is None and not old(self.closed) and old(self.state) in (ASGIHTTPState.RESPONSE, ASGIHTTPState.TRAILERS), "
+        "n_emitted('sent') == 1 and isinstance(emitted('sent')[0], StreamClosed))", "C05"),
+       ("C03.noop.none-after-close", "implies(message is None and old(self.closed), n_emitted('sent') == 0 and n_emitted('puts') == 0)", "C03"),
+       # ---- C12: a call that returns normally was valid for the state it was made in
+       ("C12.table.start", "implies(message is not None and message['type'] == 'http.response.start', old(self.state) == ASGIHTTPState.REQUEST)", "C12"),
+       ("C12.table.body", "implies(message is not None and message['type'] == 'http.response.body', old(self.state) == ASGIHTTPState.RESPONSE)", "C12"),
+       ("C12.table.closed", "implies(message is not None and old(self.state) == ASGIHTTPState.CLOSED, False)", "C12"),
+       ("C12.table.known-type", "implies(message is not None, message['type'] in ('http.response.start', 'http.response.body', 'http.response.push', 'http.response.early_hint', 'http.response.trailers'))", "C12"),
+       ("C12.table.h1-extensions", "implies(message is not None and message['type'] in ('http.response.push', 'http.response.early_hint', 'http.response.trailers'), value_of(old(self), 'scope')['http_version'] in ('2', '3'))", "C12,C02"),
+       # ---- C02: what a valid message emits
+       ("C02.app.start", "implies(message is not None and message['type'] == 'http.response.start', "
+        "n_emitted('sent') == 1 and isinstance(emitted('sent')[0], Response) and self.state == ASGIHTTPState.RESPONSE and emitted('sent')[0].stream_id == self.stream_id)", "C02"),
+       ("C02.app.body.final", "implies(message is not None and message['type'] == 'http.response.body' and not get_truthy(message, 'more_body') and not get_truthy(value_of(old(self), 'response'), 'trailers'), "
+        "self.state == ASGIHTTPState.CLOSED and count_cls('sent', EndBody) == 1 and last_is('sent', StreamClosed))", "C02"),
+       ("C02.app.body.more", "implies(message is not None and message['type'] == 'http.response.body' and get_truthy(message, 'more_body'), "
+        "self.state == ASGIHTTPState.RESPONSE and count_cls('sent', EndBody) == 0 and count_cls('sent', StreamClosed) == 0)", "C02"),
+       ("C02.sid", "trace_all('sent', 'x', x.stream_id == self.stream_id)", "C02,C09"),
+       ("C02.trailers-only-h2", "implies(nogap('sent') and count_cls('sent', Trailers) > 0, value_of(old(self), 'scope')['http_version'] in ('2', '3'))", "C02"),
+   ],
+   loops={
+       0: {"locals": {"name": "bstr", "value": "bstr"}},
+       1: {"locals": {"name": "bstr", "value": "bstr", "headers": "hdrs"}, "invariant": [("app_send.loop.unchanged", "self.g_app_started and self.state == old(self.state) and self.closed == old(self.closed) and self.g_n_final == old(self.g_n_final) and self.g_n_end == old(self.g_n_end) and self.g_access == old(self.g_access) and self.g_disc == old(self.g_disc) and self.g_spawned == old(self.g_spawned) and has(self, 'scope') and has(self, 'start_time') and iff(has(self, 'response'), has(old(self), 'response'))")]},
+       2: {"locals": {"name": "bstr", "value": "bstr", "headers": "hdrs"}, "invariant": [("app_send.loop.unchanged", "self.g_app_started and self.state == old(self.state) and self.closed == old(self.closed) and self.g_n_final == old(self.g_n_final) and self.g_n_end == old(self.g_n_end) and self.g_access == old(self.g_access) and self.g_disc == old(self.g_disc) and self.g_spawned == old(self.g_spawned) and has(self, 'scope') and has(self, 'start_time') and iff(has(self, 'response'), has(old(self), 'response'))")]},
+   },
+   props=("C02", "C03", "C05", "C12"))
